@@ -97,3 +97,6 @@ package alg
 //@   ensures len(result) > len(buf)
 //@   ensures forall j int :: (0 <= j && j < len(buf)) ==> result[j] == old(buf[j])
 //@   ensures subtxt(result, len(buf), len(result) - len(buf)) == native.f32Spec(v)
+
+// validOK: the accept condition Valid implements (one value, then only white space).
+//@ pure func validOK(data ByteSlice) bool = len(data) > 0 && native.scanRet(string(data), 0) >= 0 && (forall k int :: native.scanEnd(string(data), 0) <= k && k < len(data) ==> isSpace(data[k]))
